@@ -56,11 +56,13 @@ class Multitask:
         if len(values) == 1:
             return [[deepcopy(values[0]) for _ in range(0, self._m_tasks)] for _ in range(0, self._n_algorithms)]
         if len(values) == self._n_algorithms:
-            return [deepcopy(values[idx] for _ in range(0, self._m_tasks)) for idx in range(0, self._n_algorithms)]
+            return [[deepcopy(values[idx]) for _ in range(0, self._m_tasks)] for idx in range(0, self._n_algorithms)]
         if len(values) == self._m_tasks:
             return [deepcopy(values) for _ in range(0, self._n_algorithms)]
         if len(values) == (self._n_algorithms * self._m_tasks):
-            return values
+            return [
+                list(values[idx * self._m_tasks:(idx + 1) * self._m_tasks]) for idx in range(0, self._n_algorithms)
+            ]
 
         raise ValueError(f"{name} should be list of {kind} instances with size (1) or (n) or (m) or (n*m), "
                          f"where n is #algorithms, m is #problems.")
@@ -103,12 +105,12 @@ class Multitask:
 
         # check parent directories
         for id_optimizer, optimizer in enumerate(self._algorithms):
-            save_path = save_path if save_path is not None else "multitask"
-            save_path = f"{save_path}/{optimizer.name}"
-            Path(save_path).mkdir(parents=True, exist_ok=True)
+            base_path = save_path if save_path is not None else "multitask"
+            optimizer_path = f"{base_path}/{optimizer.name}"
+            Path(optimizer_path).mkdir(parents=True, exist_ok=True)
 
             filename = f"tuning_best_fit_{optimizer.name}_{datetime.now().strftime('%Y%m%d%H%M%S')}"
-            export_function(self._df2[id_optimizer], f"{save_path}/{filename}")
+            export_function(self._df2[id_optimizer], f"{optimizer_path}/{filename}")
 
     def __run__(
         self,
